@@ -3,6 +3,7 @@ import Oracle.Ring
 import Oracle.Unbounded
 import Oracle.Queues
 import Oracle.Pump
+import Oracle.LfqSched
 /-! Oracle suites of property C15. -/
 namespace Oracle.C15
 
@@ -16,7 +17,9 @@ def suites : List (String × Suite) := [
   ("queue-seq-spec", Oracle.Queues.seqSpec),
   ("queue-facts", Oracle.Queues.facts),
   ("queue-judge", Oracle.Queues.judge),
-  ("pump-judge", Oracle.Pump.judge)
+  ("pump-judge", Oracle.Pump.judge),
+  ("lfq-sched", Oracle.LfqSched.model),
+  ("lfq-sched-judge", Oracle.LfqSched.judge)
 ]
 
 end Oracle.C15
